@@ -875,13 +875,15 @@ impl Storage {
 
                 self.db
                     .iterator(mode)
+                    .take_while(|(key, _value)| key.starts_with(&key_prefix))
+                    // skip the keys of other scripts whose raw data starts with the raw data of this script
+                    .filter(|(key, _value)| key.len() == key_prefix_len + 17)
                     .take_while(|(key, _value)| {
-                        key.starts_with(&key_prefix)
-                            && BlockNumber::from_be_bytes(
-                                key[key_prefix_len..key_prefix_len + 8]
-                                    .try_into()
-                                    .expect("stored BlockNumber"),
-                            ) >= to_number
+                        BlockNumber::from_be_bytes(
+                            key[key_prefix_len..key_prefix_len + 8]
+                                .try_into()
+                                .expect("stored BlockNumber"),
+                        ) >= to_number
                     })
                     .for_each(|(key, value)| {
                         let block_number = BlockNumber::from_be_bytes(
